@@ -16,10 +16,47 @@ What the Go code does and the model transcribes:
 * `Encode`: header with `containerSize` = 8 + Σ child sizes, then the children in `Children` order.
 -/
 namespace Mp4ff.TreeRT
-open Mp4ff Mp4ff.Boxes
+open Mp4ff Mp4ff.Boxes Mp4ff.Layout
 
-def containers : List String :=
+/-- plain containers: `DecodeContainerChildren[SR](hdr, startPos+8, startPos+hdr.Size, …)` and `AddChild` -/
+def plain : List String :=
   ["moov", "trak", "mdia", "minf", "stbl", "dinf", "edts", "mvex", "moof", "traf", "mfra", "udta", "sinf", "schi", "ludt"]
+
+/-- a container whose children follow a fixed-syntax prefix -/
+structure PSpec where
+  pre : List Syn                       -- fields between the header and the first child
+  valid : Trace → Bool := fun _ => true
+  count : Option String := none        -- the field that must equal the number of children (stsd, dref)
+
+/-- 8 + 70 bytes of `VisualSampleEntryBox` (mp4/visualsampleentry.go): reserved bytes are skipped / written as zeros,
+    depth is written as 0x0018 and pre_defined as 0xffff whatever was read; the compressor name is a length byte,
+    that many bytes, and padding up to 31 -/
+def visualPre : List Syn :=
+  [zeros 6, u "data_reference_index" 2, zeros 16, u "width" 2, u "height" 2, u "horizresolution" 4,
+   u "vertresolution" 4, zeros 4, u "frame_count" 2, u "compressor_name_length" 1,
+   .fld "compressor_name" (.rawdyn fun t => t.nat "compressor_name_length"),
+   .rep (fun t => 31 - t.nat "compressor_name_length") [zeros 1], rsv [0, 0x18], rsv [0xff, 0xff]]
+
+def visual : PSpec := { pre := visualPre, valid := fun t => t.nat "compressor_name_length" ≤ 31 }
+
+/- The audio sample entries (mp4a, enca, ac-3, ec-3) are NOT in the model: their two decoders are written separately and
+   differ on inputs neither reproduces exactly (the io.Reader twin stops at the end of the body without a position
+   check, so it accepts a 16-byte header and children that shrink on re-encoding; the slice-reader twin rejects both).
+   C03 does not constrain such inputs; a single model function cannot answer for both paths. -/
+
+/-- stsd / dref: full box, entry count, children; the count must be the number of children -/
+def counted : PSpec := { pre := full ++ [u "entry_count" 4], count := some "entry_count" }
+
+def prefixed : List (String × PSpec) :=
+  [("stsd", counted), ("dref", counted),
+   ("avc1", visual), ("avc3", visual), ("hvc1", visual), ("hev1", visual), ("encv", visual), ("av01", visual),
+   ("vp08", visual), ("vp09", visual)]
+
+/-- the prefix specification of a container type (`none`: not a container of the model) -/
+def pspecOf (ty : String) : Option PSpec :=
+  if plain.contains ty then some { pre := [] } else (prefixed.find? (·.1 == ty)).map (·.2)
+
+def containers : List String := plain ++ prefixed.map (·.1)
 
 /-- a decoded child as far as re-encoding is concerned -/
 structure Kid where
@@ -80,20 +117,34 @@ def rtBox : Nat → Bytes → Res
     | none => .rejected
     | some (ty, hl, size) =>
       if size ≠ bs.length then .rejected
-      else if containers.contains ty then
+      else match pspecOf ty with
+      | some ps =>
         if hl ≠ 8 then .rejected
-        else match rtKids f (bs.drop 8) with
-          | .unmodelled => .unmodelled
-          | .rejected => .rejected
-          | .ok kids =>
-            if ¬ accepts ty kids then .rejected
-            else
-              let ks := arrange ty kids
-              if ks.all (·.encOK) then
-                let body := encKids ks
-                .ok (beBytes 4 (8 + body.length) ++ (bs.drop 4).take 4 ++ body) (dcKids ks 8)
-              else .encFails
-      else match roundTrip bs with
+        else
+          let payload := bs.drop 8
+          let fuelP := fuelFor ps.pre payload.length
+          match decode fuelP ps.pre [] payload with
+          | none => .rejected
+          | some (tr, rest) =>
+            if ¬ ps.valid tr then .rejected
+            else match rtKids f rest with
+            | .unmodelled => .unmodelled
+            | .rejected => .rejected
+            | .ok kids =>
+              if ¬ accepts ty kids then .rejected
+              else if (match ps.count with | some c => decide (tr.nat c ≠ kids.length) | none => false) then .rejected
+              else
+                let ks := arrange ty kids
+                if ks.all (·.encOK) then
+                  match encode fuelP ps.pre [] tr, dontCare fuelP ps.pre [] payload 0 with
+                  | some (pb, _, _), some (pdc, _, _, _) =>
+                    let body := encKids ks
+                    .ok (beBytes 4 (8 + pb.length + body.length) ++ (bs.drop 4).take 4 ++ pb ++ body)
+                        (pdc.map (· + 8) ++ dcKids ks (8 + pb.length))
+                  | _, _ => .encFails
+                else .encFails
+      | none =>
+        match roundTrip bs with
         | .unmodelled => .unmodelled
         | .rejected => .rejected
         | .encFails => .encFails
